@@ -73,6 +73,21 @@ def prepare():
     return True, '', r.stdout
 
 
+def prune_runs(keep=6, max_age_s=2 * 3600):
+    """Recorded histories are kept per tree (build/runs/<tree>-<seed>-<tier>) so that the twenty checks of one tree share
+    them; a new tree gets a new directory. Old ones are removed here: all but the `keep` most recent, once older than
+    max_age_s (nothing a running check uses is that old)."""
+    root = os.path.join(BUILD, 'runs')
+    try:
+        ds = sorted((os.path.join(root, d) for d in os.listdir(root)), key=lambda x: os.path.getmtime(x), reverse=True)
+        now = time.time()
+        for d in ds[keep:]:
+            if now - os.path.getmtime(d) > max_age_s:
+                shutil.rmtree(d, ignore_errors=True)
+    except OSError:
+        pass
+
+
 def tree_stamp():
     p = os.path.join(BUILD, 'prepare.stamp')
     return open(p).read().strip() if os.path.exists(p) else 'nostamp'
@@ -187,6 +202,7 @@ def load_known():
 
 # ---------------------------------------------------------------- main
 def main():
+    prune_runs()
     a = sys.argv[1:]
     cid = a[0]
     tier = os.environ.get('VERIF_TIER', 'quick')
